@@ -9,6 +9,7 @@ mod expectmod;
 mod genmod;
 mod mdmod;
 mod rulesmod;
+mod updatemod;
 mod util;
 
 fn main() {
@@ -20,6 +21,7 @@ fn main() {
         "diff-probe" => diffmod::probe(&args),
         "rules-replay" => rulesmod::replay(&args),
         "md-replay" => mdmod::replay(&args),
+        "update-replay" => updatemod::replay(&args),
         "gen-replay" => genmod::replay(&args),
         "escape-replay" => escapemod::replay(&args),
         "escape-sweep" => escapemod::sweep(&args),
